@@ -198,3 +198,68 @@ func CrashAfter(name string, max int) int {
 	}
 	return v
 }
+
+// ---- native replay runner ---------------------------------------------------------------
+
+type tlog interface {
+	Logf(format string, args ...interface{})
+}
+
+// RunReplay runs every vector listed in the file named by env VERIF_REPLAY_LIST whose harness is in hs.
+// Output lines (stdout):  VERIF-RESULT <vector path> <ok|assert|panic|assume> <detail>
+//                         VERIF-OBS <vector path> <name=value;...>
+func RunReplay(hs map[string]func()) {
+	list := os.Getenv("VERIF_REPLAY_LIST")
+	if list == "" {
+		return
+	}
+	data, err := os.ReadFile(list)
+	if err != nil {
+		fmt.Printf("VERIF-ERROR cannot read list: %v\n", err)
+		return
+	}
+	repeat := 1
+	if r, err := strconv.Atoi(os.Getenv("VERIF_REPEAT")); err == nil && r > 1 {
+		repeat = r
+	}
+	for _, path := range strings.Fields(string(data)) {
+		v, err := LoadFile(path)
+		if err != nil {
+			fmt.Printf("VERIF-ERROR %s: %v\n", path, err)
+			continue
+		}
+		short := v.Harness
+		if i := strings.LastIndex(short, "."); i >= 0 {
+			short = short[i+1:]
+		}
+		f, ok := hs[short]
+		if !ok {
+			continue
+		}
+		status, detail := "ok", ""
+		for k := 0; k < repeat && status == "ok"; k++ {
+			status, detail = runOne(v, f)
+		}
+		fmt.Printf("VERIF-RESULT %s %s %s\n", path, status, strings.ReplaceAll(detail, "\n", " | "))
+		fmt.Printf("VERIF-OBS %s %s\n", path, strings.Join(Observed, ";"))
+	}
+}
+
+func runOne(v *Vector, f func()) (status, detail string) {
+	Load(v)
+	defer func() {
+		if r := recover(); r != nil {
+			s := fmt.Sprint(r)
+			switch {
+			case strings.HasPrefix(s, "VERIF-ASSERT: "):
+				status, detail = "assert", strings.TrimPrefix(s, "VERIF-ASSERT: ")
+			case strings.HasPrefix(s, "VERIF-ASSUME"), strings.HasPrefix(s, "VERIF-VECTOR"):
+				status, detail = "assume", s
+			default:
+				status, detail = "panic", s+" || "+stackFuncs()
+			}
+		}
+	}()
+	f()
+	return "ok", ""
+}
